@@ -43,6 +43,7 @@ SENSITIVE = [
     ("Sensitive", "exporter secret / any secret", r"\b(\w*secret\w*|Secret)\b"),
     ("Sensitive", "image key / nonce / seed / upload key", r"\b(image_key|image_nonce|image_seed|image_upload_key|upload_key|upload_secret_key|upload_keypair|encryption_key|decryption_key|file_key|media_key|nonce)\b"),
     ("Sensitive", "database key / EncryptionConfig.key / key bytes", r"\b(db_key|database_key|key_bytes|raw_key|config\.key|encryption_config|EncryptionConfig|keys?\.secret_key|secret_key|private_key|signing_key|key_hex)\b|\.key\b|^key$"),
+    ("Sensitive", "whole Nostr events / rumors (the h tag of a group event is the hex Nostr group id; a rumor carries the content)", r"(^|\.)(evolution_event|event|rumor|rumor_event|wrapper_event|welcome_rumor|welcome_rumors|unsigned_event|commit_event|proposal_event)$"),
     ("Sensitive", "snapshot names embed the group id hex (snap_{group_id_hex}_{epoch}_{commit})", r"\b(snapshot_name|snap_name|snapshot_names)\b"),
     ("Sensitive", "whole group / extension / config records printed (contain ids and image keys)", r"^(group|stored_group|mls_group|group_data|nostr_group_data|group_data_extension|extension|config|welcome|staged_welcome|snapshot)$"),
 ]
